@@ -15,8 +15,8 @@ Record hcase := HC {
   hc_obs : hobs;
   hc_top : nat;          (* result.depth (0 when an exception was raised) *)
   hc_print : option hobs;(* print_tree lines as (depth, name, []) or its exception *)
-  hc_whole : option (list lbl); (* prune_tree with paths, no depth limit, on an inner node: pre-order labels of
-                            result.root, i.e. the whole copy the returned node is still attached to *)
+  hc_whole : option (list lbl); (* prune_tree on an inner node of a Node tree: pre-order labels of result.root,
+                            i.e. the whole copy the returned node is still attached to *)
   hc_inv : bool          (* side conditions the harness evaluates on the live objects (see helper.py
                             `_side_conditions`): input tree, its separators and the path argument
                             unchanged; result made of new objects of the input's node class whose
@@ -61,11 +61,12 @@ Definition agree_top (st : pos) (c : hcall) (m : res tree) (top : nat) : bool :=
    (C14_inner_result_in_whole_copy) *)
 Definition agree_whole (bin : bool) (tsep : str) (t : tree) (st : pos) (c : hcall) (w : option (list lbl)) : bool :=
   match w, c with
-  | Some l, CPrune pp exact sep 0 =>
-      match locate_at bin tsep sep (copy_tree t) st (norm_paths pp) with
-      | Ret targets =>
-          if bin then true
-          else list_eqb lbl_eqb (obs_tree (prune_paths targets exact (copy_tree t))) l
+  | Some l, CPrune pp exact sep d =>
+      if bin then true else
+      let paths := norm_paths pp in
+      if is_nil paths then list_eqb lbl_eqb (obs_tree (whole_copy_at false [] exact st d t)) l else
+      match locate_at bin tsep sep (copy_tree t) st paths with
+      | Ret targets => list_eqb lbl_eqb (obs_tree (whole_copy_at true targets exact st d t)) l
       | Raise _ => true
       end
   | _, _ => true
